@@ -149,7 +149,8 @@ class Loaded:
         return p + ".py", modname.rsplit(".", 1)[0]
 
     def _imp(self, name, globals=None, locals=None, fromlist=(), level=0):
-        if globals is None or not str(globals.get("__name__", "")).startswith("droplets"):
+        if (globals is None or not str(globals.get("__name__", "")).startswith("droplets")
+                or name.startswith(("numpy._", "numpy.core", "numpy.lib._", "scipy._"))):
             # import issued from library internals (e.g. numpy's lazy C-level imports), not by the code under test
             return builtins.__import__(name, globals, locals, fromlist, level)
         if level > 0:
